@@ -1,10 +1,15 @@
 /-
-  How a source argument is named in an archive, written from the manuals (README-cli-tar / -fdar / -sdar: "the name and
-  extension of the file"; "files with the extension `bas` … unless they are suffixed with `,a`") and from the property texts
-  ("under its upper-cased 8.3 name"; "whether the sources are reached by relative or absolute paths or from directories whose
-  names contain dots") — not from the tool's code: the last path component is cut at its last dot, both parts are
-  upper-cased, the name is cut to 8 characters and the extension to 3.  No index arithmetic: everything is said with
-  `reverse` / `takeWhile`, so that agreement with the tool's `rfind`-based code is a theorem, not a re-statement.
+  How a source argument is named in an archive.  The manuals (README-cli-tar / -fdar / -sdar) say only "the name and extension
+  of the file" and "files with the extension `bas` … unless they are suffixed with `,a`"; the property texts say "under its
+  upper-cased 8.3 name" and "whether the sources are reached by relative or absolute paths or from directories whose names
+  contain dots".  This file is the *reading* of those words that the theorems are stated against — the last path component is
+  cut at its last dot, both parts are upper-cased, the name is cut to 8 characters and the extension to 3 — said with
+  `reverse` / `takeWhile` instead of the tool's `rfind` and index arithmetic, so that agreement with the code
+  (`classify_eq_spec`, `splitSource_eq_spec`) is a guard against off-by-one and wrong-dot errors, not a proof that the tool
+  implements a rule stated elsewhere: where the documents are silent the reading follows the tool.  Two such places, for the
+  disk archivers only: the option `,a` is recognised after *any* extension (`x.txt,a` is read from `x.txt` and stored as
+  `X.TXT`, with the default kind — the option is documented for `bas` alone), and without a dot the option stays in the name
+  (`README,a` is read from `README` and catalogued `README,A`).  The tape archiver takes the option after `bas` only.
 -/
 import MotoModel.Model.Py
 import MotoModel.Spec.K7
